@@ -368,6 +368,13 @@ func init() {
 			}
 			return ret1(st, x.tf.FFun("uf_"+strArg(args[1]), ts...))
 		},
+		// exact real arithmetic for reference models written over float64 (RUF only)
+		"RAdd": func(x *Exec, st *State, fr *Frame, args []Value, site ssa.Instruction) []Result {
+			return ret1(st, x.tf.FFun("exact_add", args[1].(*Term), args[2].(*Term)))
+		},
+		"RSub": func(x *Exec, st *State, fr *Frame, args []Value, site ssa.Instruction) []Result {
+			return ret1(st, x.tf.FFun("exact_sub", args[1].(*Term), args[2].(*Term)))
+		},
 		"Stream": func(x *Exec, st *State, fr *Frame, args []Value, site ssa.Instruction) []Result {
 			return ret1(st, &SliceV{})
 		},
